@@ -24,7 +24,6 @@ theorem mem_reserveIn (u : Bits) (bs : List Nat) (r : Tab Bits) (c i : Nat) :
 
 /-- what the allocator needs from the class graph -/
 structure Complete (tb cov : Nat → List Nat) : Prop where
-  self : ∀ c, c ∈ cov c
   bases : ∀ c d, d ∈ cov c → d ≠ c → c ∈ tb d
 
 /-- what the invariant says about one earlier allocation `(v', s')` -/
